@@ -16,7 +16,7 @@ import math
 import z3
 
 from pyvc import ops
-from pyvc.values import Ext, NoOp, PyRaise, Unsupported, VBound, VClass, VDict, VList, VObj, stub
+from pyvc.values import Ext, NoOp, PyRaise, Unsupported, VBound, VClass, VDict, VList, VObj, VSet, stub
 
 from .api_common import CollectionsStub, ModuleStub
 
@@ -339,7 +339,7 @@ def h_metadata_function(eng):
     eng.input("shape", shape)
     cats = ["states", "alg_states", "inputs", "parameters", "constants"]
     pnames = ["p%d" % i for i in range(len(shape["parameters"]))]
-    m = VObj(cls, {})
+    m = new_model(eng, cls)
     attrs_of = {}
     for c in cats:
         lst = []
@@ -586,9 +586,115 @@ def h_substitute_metadata(eng):
     eng.prove("submeta.constant_results_stored_in_the_declared_python_type", z3.BoolVal(bool(ok_type)))
 
 
+def new_model(eng, cls):
+    """a Model built by its REAL constructor (so that fields added to __init__ exist), without the instance-level _expand_mx_func
+    (the harnesses record expansion through the class attribute)"""
+    from .api_common import ModuleStub as _MS
+    cas = eng.ext_modules["casadi"]
+    mxc = cas.attrs.get("MX")
+    if isinstance(mxc, VClass) and "sym" not in mxc.attrs:
+        mxc.attrs["sym"] = stub(lambda eng, name, *shape: T("sym", (), name=name))
+    try:
+        m = eng.call(cls, [], {})
+    except (Unsupported, PyRaise):
+        return VObj(cls, {})
+    m.fields.pop("_expand_mx_func", None)
+    return m
+
+
+def h_metadata_reread(eng):
+    """The metadata function is a PROPERTY of the model's current state: read, change the model the way simplification steps do
+    (a category list replaced by another list; an attribute of a variable rewritten in place), read again -- the second function
+    is built from the variables and attribute values the model has NOW (no stale copy of an earlier read)."""
+    install(eng)
+    mm = eng.load_module(MODEL)
+    cls = eng.module_global(mm, "Model")
+    f = eng.find_function(MODEL, "Model.variable_metadata_function")
+    m = new_model(eng, cls)
+
+    def var(name, numel=1):
+        v = VObj(VClass("Variable"), {"symbol": T("sym", (), name=name, shape=(numel, 1))})
+        for a in ATTRS:
+            v.fields[a] = T("attr", (), label="%s.%s" % (name, a), numel=1, affine_all=False, affine_in={})
+        return v
+    for c in ("states", "alg_states", "inputs", "parameters", "constants"):
+        m.fields[c] = VList([])
+    x, y = var("x"), var("y")
+    m.fields["states"] = VList([x])
+    m.fields["alg_states"] = VList([y])
+    expanded = []
+    cls.attrs["_expand_mx_func"] = _record_method(expanded)
+    cls.attrs["_symbols"] = _symbols_method
+    change = ["list-replaced", "attribute-rewritten", "variable-moved", "nothing"][eng.choice(4)]
+    eng.input("change_between_the_reads", change)
+    orig_setcomp = eng.ev_SetComp
+    eng.ev_SetComp = lambda e, frame: VSetOf(orig_setcomp(e, frame))
+    try:
+        r1 = eng.call_function(f, [m], {})
+        if change == "list-replaced":
+            z = var("z")
+            m.fields["states"] = VList([z, x])            # e.g. _expand_vectors / alias elimination assign new lists
+        elif change == "attribute-rewritten":
+            x.fields["max"] = T("attr", (), label="x.max#2", numel=1, affine_all=False, affine_in={})     # e.g. _substitute_metadata, alias merging
+        elif change == "variable-moved":
+            m.fields["alg_states"] = VList([])
+            m.fields["constants"] = VList([y])            # eliminate_constant_assignments
+        r2 = eng.call_function(f, [m], {})
+    except PyRaise as e:
+        eng.prove("reread.no_exception", False, exc=repr(e.exc))
+        return
+    finally:
+        del eng.ev_SetComp
+    eng.cover("reread.done")
+    fn = expanded[-1] if expanded else None
+    ok = isinstance(fn, FunctionT) and len(fn.outs) == 5
+    if not ok:
+        eng.prove("reread.second_read_reflects_the_current_model", False)
+        return
+
+    def leaves(blk):
+        out = []
+        if isinstance(blk, T) and blk.kind == "horzcat":
+            for col in blk.args:
+                out.append([_leaf(e) for e in (col.args if isinstance(col, T) and col.kind == "veccat" else [col])])
+        return out
+    cats = ["states", "alg_states", "inputs", "parameters", "constants"]
+    good = True
+    for c, o in zip(cats, fn.outs):
+        b, _rb = _unwrap_rebuild(o)
+        cols = leaves(b)
+        cur = m.fields[c].items
+        if not cur:
+            continue
+        good = good and len(cols) == len(ATTRS) and all(len(col) == len(cur) and all(e is v.fields[a] for e, v in zip(col, cur)) for a, col in zip(ATTRS, cols))
+    eng.prove("reread.second_read_reflects_the_current_model", z3.BoolVal(bool(good)), change=change)
+
+
+class VSetOf(Ext):
+    """set of instruction ids of a block function: no operation outside the allowed list (irrelevant for this harness)"""
+
+    def __init__(self, inner):
+        self.inner = inner
+
+    def sym_binop(self, eng, op, other, reflected):
+        return VSet([])
+
+    def sym_getattr(self, eng, name):
+        if name in ("issubset", "difference", "__sub__"):
+            return stub(lambda eng, *a: True if name == "issubset" else VSet([]))
+        raise Unsupported("set.%s" % name)
+
+    def sym_truth(self, eng):
+        return False
+
+    def sym_len(self, eng):
+        return 0
+
+
 HARNESSES = [("model.Variable.__init__", h_defaults), ("Generator._ast_symbols_to_variables/attributes", h_attribute_copy),
-             ("Model.variable_metadata_function", h_metadata_function), ("Model._substitute_metadata", h_substitute_metadata)]
-EXPECTED_COVER = {"defaults.done", "copy.done", "meta.done", "submeta.done"}
+             ("Model.variable_metadata_function", h_metadata_function), ("Model._substitute_metadata", h_substitute_metadata),
+             ("Model.variable_metadata_function: read, change, read", h_metadata_reread)]
+EXPECTED_COVER = {"defaults.done", "copy.done", "meta.done", "submeta.done", "reread.done"}
 BOUNDED = True
 LEVEL = "proof"
 TRUSTED = ["pyvc VC generator", "z3 5.1.0",
@@ -602,7 +708,7 @@ ASSUMPTIONS = [
 EXPLANATION = "Defaults, attribute copy/coercion, metadata matrix layout and the guard of the affine rebuild."
 MANIFEST = {
     "category": "proof",
-    "text": "Variable's defaults, the attribute copy and Python-type coercion of _ast_symbols_to_variables (every attribute x value kind x declared type) and variable_metadata_function are verified on the real source: the metadata matrices have one column per attribute and the variables' rows in order (scalars repeated to the variable's size), and the affine shortcut is taken only if every attribute block is affine in the WHOLE parameter vector (a symbolic fact strictly stronger than affine in each parameter) and free of unallowed operations, in which case each output is reshape(J(0) p) + f(0). A bounded replay evaluates real models' metadata at random parameter values.",
+    "text": "Variable's defaults, the attribute copy and Python-type coercion of _ast_symbols_to_variables (every attribute x value kind x declared type) and variable_metadata_function are verified on the real source: the metadata matrices have one column per attribute and the variables' rows in order (scalars repeated to the variable's size), and the affine shortcut is taken only if every attribute block is affine in the WHOLE parameter vector (a symbolic fact strictly stronger than affine in each parameter) and free of unallowed operations, in which case each output is reshape(J(0) p) + f(0). variable_metadata_function is a property of the model's CURRENT state: read, change (list replaced / attribute rewritten / variable moved), read again gives the function of the current variables; _substitute_metadata gives every expression-valued attribute its own substituted value in the declared Python type. A bounded replay evaluates real models' metadata at random parameter values.",
     "note": "CasADi's algebra is assumed (affinity test via double Jacobian, layout, evaluation); shapes enumerated.",
     "technique": "contract-based deductive verification: symbolic execution with provenance-recording CasADi terms carrying ghost affinity facts, z3",
 }
